@@ -76,12 +76,12 @@ PROPS: dict[str, dict] = {}
 
 
 def engine_prop(pid, monitors, fields, ops, results=False, quick=960, thorough=24000, profile=None,
-                technique='', note='', pre=None):
+                technique='', note='', pre=None, directed=None):
     if not os.path.exists(os.path.join(fw.LEAN, 'PK', 'Audit', f'{pid}.lean')):
         return      # no theorem yet: not claimed
     PROPS[pid] = dict(kind='engine', monitors=monitors, fields=fields, ops=ops, results=results,
                       quick=quick, thorough=thorough, profile=profile, technique=technique, note=note,
-                      pre=pre)
+                      pre=pre, directed=directed)
 
 
 def pre_c11():
@@ -101,12 +101,12 @@ def pre_c11():
 
 engine_prop('C01', ['C01'], CHIP_FIELDS, CHIP_OPS)
 engine_prop('C02', ['C02'], SHOW_FIELDS | CHIP_FIELDS, {'ChipsPushing', 'HandKilling', 'HoleCardsShowingOrMucking'})
-engine_prop('C03', ['C03'], BET_FIELDS, BET_OPS)
+engine_prop('C03', ['C03'], BET_FIELDS, BET_OPS, directed={'rule96': 0.08})
 engine_prop('C06', ['C06'], CARD_FIELDS, CARD_OPS)
 engine_prop('C07', ['C07'], PHASE_FIELDS | CAN_FIELDS, ALL_OPS, results=True)
 engine_prop('C08', ['C08'], CAN_FIELDS, set(), results=True)
 engine_prop('C09', ['C09'], PHASE_FIELDS | CHIP_FIELDS | CARD_FIELDS, ALL_OPS)
-engine_prop('C10', ['C10'], DEAL_FIELDS, DEAL_OPS)
+engine_prop('C10', ['C10'], DEAL_FIELDS, DEAL_OPS, directed={'exact_deck': 0.08})
 engine_prop('C12', ['C12'], SHOW_FIELDS | CHIP_FIELDS, SHOW_OPS)
 engine_prop('C11', ['C11'], {'variant_table', 'min_cbr', 'pot_cbr', 'max_cbr', 'can_cbr', 'cbrCnt', 'cbrAmt'},
             {'CompletionBettingOrRaisingTo'}, profile={'predefined': True}, pre=pre_c11)
@@ -143,7 +143,8 @@ def decide(pid: str, spec: dict, tier: str, seed: int, theorems, t0: float) -> i
 def decide_engine(pid, spec, tier, seed, theorems, t0):
     count = spec['thorough'] if tier == 'thorough' else spec['quick']
     known = fw.load_known()
-    res = fw.correspondence(seed, count, spec['monitors'], profile=spec.get('profile'), tag=pid)
+    res = fw.correspondence(seed, count, spec['monitors'], profile=spec.get('profile'), tag=pid,
+                            directed=spec.get('directed'))
     mine = [v for v in res['viols'] if v['property'] == pid]
     matched, fresh = {}, []
     for v in mine:
@@ -173,7 +174,8 @@ def decide_engine(pid, spec, tier, seed, theorems, t0):
         d = hits[0]
         boost = fw.correspondence(seed + 7919, max(count * 10, 2000), spec['monitors'],
                                   variant=d['meta'].get('variant') if d['meta'].get('variant') != 'custom' else None,
-                                  tag=pid + 'b')
+                                  tag=pid + 'b',
+                                  directed={d['meta']['director']: 0.5} if d['meta'].get('director') else None)
         searched = boost['cases']
         bf = [v for v in boost['viols'] if v['property'] == pid and fw.match_known(v, known) is None]
         if bf:
